@@ -55,3 +55,13 @@ Definition spec_radix_q (r n d : Z) : res :=
   else if d =? 0 then DivZero
   else let '(a, b) := qnorm n d in
        Val ((if a <? 0 then -1 else 1) :: to_radix r a ++ (if b =? 1 then [] else (-1) :: to_radix r b)).
+
+(** number->string of an exact complex number re + im i in radix r: the text of re, then the text of
+    im with its sign ('+' written for a non-negative imaginary part), then 'i'; the marker -2 separates
+    the two parts *)
+Definition spec_radix_c (r n1 d1 n2 d2 : Z) : res :=
+  match spec_radix_q r n1 d1, spec_radix_q r n2 d2 with
+  | Val l1, Val l2 => Val (l1 ++ (-2) :: l2)
+  | DivZero, _ | _, DivZero => DivZero
+  | _, _ => Undefined
+  end.
